@@ -144,14 +144,11 @@ func checkDistribution(c interface {
 	Check()
 	Violate(prop, oracle, signature, format string, a ...interface{}) bool
 }, sigPrefix, class, what string, pool *big.Int, payouts map[common.Uint168]common.Fixed64, change common.Fixed64, real *common.Fixed64) {
-	// A round whose shape already names a cause (zero votes in the snapshot,
-	// empty seats, ...) gets one signature whichever of the checks below it
-	// fails; otherwise the failed check is the signature.
+	// The signature names the shape of the round (zero votes in the snapshot,
+	// empty seats, ...) AND the check that failed: a recorded finding about one
+	// round shape must not cover a different failure in rounds of that shape.
 	sig := func(check string) string {
-		if class != "" {
-			return sigPrefix + class
-		}
-		return sigPrefix + "/" + check
+		return sigPrefix + class + "/" + check
 	}
 	sum := new(big.Int)
 	neg := false
